@@ -14,7 +14,9 @@ RULE = ("relational two-run monitor: a document = sequence of catalogue line for
         "V1,V2 with the same slot->class map, md5 salt lengths and equality pattern ($9$ equality on plaintexts) are "
         "run through two fresh FileAnonymizer(anon_pwd=True); outputs must be byte-equal, INFO+ log records equal, and "
         "no high-entropy core of any secret ($9$: ciphertext body and plaintext; $1$/$6$: hash and salt) may occur in "
-        "output or log records. distinct_nontrivial = distinct (form, class, quoting, trailing-context) variants whose "
+        "output or log records. Clear-text values are mostly long random words; about a third of the text slots draw "
+        "unusual members of the value space instead (1-4 characters, '$word', '$word$rest', a substring of the line's own "
+        "keywords, the user name standing next to the secret, case variants of reserved words). distinct_nontrivial = distinct (form, class, quoting, trailing-context) variants whose "
         "line was actually changed by the code.")
 ASSUMPTIONS = ["form catalogue is fixed data in /verif (vendor syntax + reading of the pattern list)",
                "secret values exclude space, quotes, backslash, ; , [ ] { } (quantifier: quote/terminator characters)",
@@ -157,6 +159,12 @@ def make_texts(case):
             "special": srng.choice([None] * 7 + ["short", "dollar-word", "ctxsub", "recur-user"]),
             "sp_seed": srng.getrandbits(32),
         })
+    # line terminators: mostly LF; some documents use CRLF, some end without a final newline
+    eol_doc = srng.choice(["\n", "\n", "\n", "\r\n"])
+    for st in struct:
+        st["eol"] = eol_doc
+    if struct and srng.random() < 0.2 and not case.get("straddle"):
+        struct[-1]["eol"] = ""
     md5len = {}
     ctx_pad = [0]
     texts, vals = [], []
